@@ -39,6 +39,8 @@ class Scoping(object):
         self.flags = set()
         self.maxdepth_seen = 0
         self.n = 0
+        # actions created early and entered (once) later, possibly under another current action
+        self.pre = []
 
     def top(self):
         return self.stack[-1] if self.stack else None
@@ -84,6 +86,10 @@ class Scoping(object):
                 ops += ["with", "ctx", "run", "gen"]
                 if self.stack:
                     ops += ["re-ctx", "re-run"]
+                if self.pre:
+                    ops += ["with-pre", "ctx-pre"]
+            if len(self.all_actions) < 6:
+                ops.append("make")
             for j in range(1, depth + 1):
                 ops.append(("raise", j))
             op = ops[ctx.choose(len(ops), "op@%d" % depth)]
@@ -98,8 +104,14 @@ class Scoping(object):
                 if depth >= 2:
                     self.flags.add("inner-raise")
                 raise e
-            self.ops.append(op + ("(" if op not in ("msg", "task") else ""))
-            if op == "msg":
+            self.ops.append(op + ("(" if op not in ("msg", "task", "make") else ""))
+            if op == "make":
+                # create an action here (it becomes a child of the current one) but enter it later
+                a = self.new_action("make")
+                self.pre.append(a)
+                self.expect("after creating an action without entering it")
+                self.flags.add("pre-created")
+            elif op == "msg":
                 n0 = len(self.received)
                 log_message("t:m", i=self.budget)
                 ctx.check(len(self.received) == n0 + 1, "log_message emitted %d messages", len(self.received) - n0)
@@ -130,6 +142,11 @@ class Scoping(object):
             a = self.stack[ctx.choose(len(self.stack), "which enclosing action")]
             self.flags.add("reentry")
             fresh = False
+        elif op in ("with-pre", "ctx-pre"):
+            a = self.pre.pop(ctx.choose(len(self.pre), "which pre-created action"))
+            self.flags.add("entered-elsewhere")
+            fresh = op == "ctx-pre"
+            op = "with" if op == "with-pre" else "ctx"
         else:
             a = self.new_action(op)
             fresh = True
@@ -230,6 +247,6 @@ OBLIGATIONS = [
         shards=_shards,
         twin=[{"N": 4, "D": 3, "twin_label": "inner-raise"}],
         timeout={"quick": 100, "thorough": 1200},
-        bounds={"quick": "<= 4 ops, depth <= 3; ops: with / context() / run() on a new action, context()/run() re-entering any enclosing action, generator body closed early, start_task, log_message, exit, raise caught j levels out", "thorough": "<= 5 ops, depth <= 4"},
+        bounds={"quick": "<= 4 ops, depth <= 3; ops: with / context() / run() on a new action, with/context() on an action created earlier under another current action, context()/run() re-entering any enclosing action, generator body closed early, start_task, log_message, exit, raise caught j levels out", "thorough": "<= 5 ops, depth <= 4"},
     ),
 ]
